@@ -17,7 +17,7 @@ the provenance class of its path argument).
 * `C10_slash_never_matches`  names containing `/` (in particular every rewritten `:`/`\`) open nothing
 * `C10_companion_flt_partial/_full/_counterexample`, `C10_companion_mfp`, `C10_companion_none`   the `dirname+basename+suffix` sites
 * `C10_exec`, `C10_exec_only_for_paths`, `C10_argv_single_argument`   helper programs
-* `C10_sites_guarded`, `C10_fields_guarded`, `C10_argv_tie`   the call-site premise, by `decide` over the generated table
+* `C10_sites_guarded`, `C10_fields_guarded`, `C10_argv_tie`, `C10_path_buffers_automatic`   the call-site premise, by `decide` over the generated table
 -/
 namespace Xmp.PathSafe
 open Xmp.Gen.OpenSites
@@ -482,6 +482,15 @@ def fieldGuarded (w : String × String × String × FieldWrite) : Bool :=
   | .other _ => false
 
 theorem C10_fields_guarded : fieldWrites.all fieldGuarded = true := by decide
+
+/-- **No path buffer is shared between contexts or threads**: every character
+buffer / string variable that carries a path to an OS call, to a function
+forwarding to one, or through the sanitiser and the lookup is an automatic
+variable of its function (a `static` or file-scope buffer would let one load
+open the path another load resolved). -/
+theorem C10_path_buffers_automatic : pathBuffers.all (fun b => b.2.2.2.2 == Storage.auto) = true := by decide
+
+example : pathBuffers ≠ [] ∧ pathBuffers.any (fun b => b.2.2.2.1 == "char[32]") = true := by decide
 
 /-- instantiate an argv template -/
 def instantiate (f : Bytes) (seg : List String) : List Bytes :=
